@@ -197,7 +197,14 @@ def unicode_adjacent(rng, s):
             i = s.find(kw, i + 1)
     if not spots or rng.random() < 0.1: spots = list(range(len(s) + 1))
     i = rng.choice(spots)
-    return s[:i] + rng.choice(UNI_WORD) + s[i:]
+    # inside a quoted literal (which may be compared with extra) only characters whose str.lower() the name model covers:
+    # canonicalize_name on other non-ASCII upper-case letters is a declared assumption of the checks
+    q = None
+    for c in s[:i]:
+        if q: q = None if c == q else q
+        elif c in "'\"": q = c
+    pool = [u for u in UNI_WORD if u.lower() == u or u == "\u212a"] if q else UNI_WORD
+    return s[:i] + rng.choice(pool) + s[i:]
 
 
 def deep_texts(rng, n):
